@@ -97,11 +97,24 @@ Fixpoint nodup_b (l : list (nat * N)) : bool :=
 Definition not_invented (loaded item_elems : list (nat * N)) : bool :=
   forallb (fun v => mem_key v item_elems) loaded && nodup_b loaded.
 
+(* one step of a history on a single Collada object: an ignoreErrors call, or an error handed to
+   handleError (directly, or lazily by CImage.data) with what was observed *)
+Inductive mstep := MOp (a : iarg) | MProbe (code : nat) (raised : bool).
+
+Fixpoint run_msteps (mk : mask) (steps : list mstep) : mask * bool :=
+  match steps with
+  | [] => (mk, true)
+  | MOp a :: r => run_msteps (ignore_errors mk a) r
+  | MProbe c raised :: r =>
+      let '(mk', ok) := run_msteps mk r in
+      (mk', Bool.eqb (negb (masked mk (exn_of_code c))) raised && ok)
+  end.
+
 Inductive case :=
   | CaseDoc (events : list ev) (runs : list run)
             (completed : bool) (base fault : list snap) (affected : list (nat * N))
             (loaded item_elems : list (nat * N))
-  | CaseMask (ops : list iarg) (probes : list (nat * bool)) (mask_len : nat)
+  | CaseMask (steps : list mstep) (mask_len : nat)
   | CaseNotXml (runs : list run).   (* bytes that expat rejects *)
 
 (* the model of reading bytes that do not parse: [load_bytes] with a parser answering None *)
@@ -118,10 +131,9 @@ Definition case_ok (c : case) : bool :=
       forallb (run_ok events) runs &&
       (if completed then contained base fault affected else true) &&
       not_invented loaded item_elems
-  | CaseMask ops probes mask_len =>
-      let mk := run_ignore [] ops in
-      Nat.eqb (length mk) mask_len &&
-      forallb (fun p => Bool.eqb (negb (masked mk (exn_of_code (fst p)))) (snd p)) probes
+  | CaseMask steps mask_len =>
+      let '(mk, ok) := run_msteps [] steps in
+      Nat.eqb (length mk) mask_len && ok
   | CaseNotXml runs => forallb notxml_ok runs
   end.
 
